@@ -89,6 +89,22 @@ class DistributorInterface(ABC):
     def local_block_info_list(self) -> tuple[BlockInfo, ...]:
         return self._local_block_info_list
 
+    def peers_have_gradients(self) -> bool:
+        """Returns whether this rank has to take part in the update of blocks assigned to other ranks.
+
+        NOTE: Distributors that distribute the blocks across a communication group (DDP, HSDP, HybridShard) must
+        override this function and return True whenever any block of the group has a gradient, since all ranks in
+        the group then all-gather the updates in update_params(). It is queried by the optimizer when no block
+        assigned to this rank has a gradient.
+
+        By default, no communication is performed in update_params(), so there are no peers to synchronize with.
+
+        Returns:
+            peers_have_gradients (bool): Whether some block updated through communication has a gradient.
+
+        """
+        return False
+
     def _construct_composable_block_ids(
         self,
         param_index: int,
